@@ -1027,3 +1027,425 @@ func (c *Ctx) deferredErrorArgs() {
 		c.ok("deferred-error-args", token.NoPos, "%d defer statement(s); none takes an error variable that is assigned after it", n)
 	}
 }
+
+// wrapperOrder: a writer that wraps another one (bufio.NewWriter(w), tar.NewWriter(w),
+// NewTarWriter(w)) holds data - buffered bytes, the end-of-archive marker - until it is flushed or
+// closed.  That must happen while the underlying writer is still open: an explicit w.Close() is
+// dominated by an explicit Flush/Close of the wrapper, and where both are deferred the wrapper's
+// defer is registered after the underlying one (defers run last-in-first-out).  Otherwise the tail
+// of the stream is written to a closed file or pipe, the error of the deferred call is dropped,
+// and a truncated archive is reported as success.
+func (c *Ctx) wrapperOrder() {
+	isWrapCtor := func(name string) bool {
+		switch name {
+		case "bufio.NewWriter", "bufio.NewWriterSize", "archive/tar.NewWriter", "desync.NewTarWriter", "compress/gzip.NewWriter", "compress/gzip.NewWriterLevel":
+			return true
+		}
+		return false
+	}
+	// rootValue: the value behind interface conversions and single-assignment variables
+	// (captured ones included)
+	var rootValue func(v ssa.Value, depth int) ssa.Value
+	rootValue = func(v ssa.Value, depth int) ssa.Value {
+		for depth < 10 {
+			depth++
+			switch x := v.(type) {
+			case *ssa.MakeInterface:
+				v = x.X
+				continue
+			case *ssa.ChangeInterface:
+				v = x.X
+				continue
+			case *ssa.ChangeType:
+				v = x.X
+				continue
+			case *ssa.UnOp:
+				if x.Op != token.MUL {
+					return v
+				}
+				var cell *ssa.Alloc
+				switch a := x.X.(type) {
+				case *ssa.Alloc:
+					cell = a
+				case *ssa.FreeVar:
+					if cs := captured(a); len(cs) == 1 {
+						cell, _ = cs[0].(*ssa.Alloc)
+					}
+				}
+				if cell == nil {
+					return v
+				}
+				var vals []ssa.Value
+				for _, st := range storesTo(cell) {
+					if k, isK := st.Val.(*ssa.Const); isK && k.Value == nil {
+						continue // "var w io.Writer" zero value
+					}
+					vals = append(vals, st.Val)
+				}
+				if len(vals) != 1 {
+					return cell // several assignments: the variable itself is the identity
+				}
+				v = vals[0]
+				continue
+			case *ssa.Phi:
+				return v
+			}
+			return v
+		}
+		return v
+	}
+	same := func(a, b ssa.Value) bool {
+		ra, rb := rootValue(a, 0), rootValue(b, 0)
+		if ra == rb {
+			return true
+		}
+		// one of several values of a variable: the variable (cell) of one side holds the other
+		if ca, ok := ra.(*ssa.Alloc); ok {
+			for _, st := range storesTo(ca) {
+				if rootValue(st.Val, 0) == rb {
+					return true
+				}
+			}
+		}
+		if cb, ok := rb.(*ssa.Alloc); ok {
+			for _, st := range storesTo(cb) {
+				if rootValue(st.Val, 0) == ra {
+					return true
+				}
+			}
+		}
+		// a phi of the values
+		if pa, ok := ra.(*ssa.Phi); ok {
+			for _, e := range pa.Edges {
+				if rootValue(e, 0) == rb {
+					return true
+				}
+			}
+		}
+		if pb, ok := rb.(*ssa.Phi); ok {
+			for _, e := range pb.Edges {
+				if rootValue(e, 0) == ra {
+					return true
+				}
+			}
+		}
+		return false
+	}
+	type fin struct {
+		ins      ssa.Instruction
+		deferred bool
+		method   string
+		recv     ssa.Value
+	}
+	n := 0
+	for _, top := range c.Funcs {
+		if top.Parent() != nil || len(top.Blocks) == 0 {
+			continue
+		}
+		fam := withClosures(top)
+		type wrap struct {
+			at   *ssa.Call
+			b, a ssa.Value
+		}
+		var wraps []wrap
+		var fins []fin
+		for _, f := range fam {
+			instrs(f, func(_ *ssa.BasicBlock, _ int, ins ssa.Instruction) {
+				if ins.Parent() != f {
+					return
+				}
+				ci, ok := ins.(ssa.CallInstruction)
+				if !ok {
+					return
+				}
+				if call, isCall := ins.(*ssa.Call); isCall && isWrapCtor(callee(call)) && len(call.Call.Args) > 0 {
+					wraps = append(wraps, wrap{call, call, call.Call.Args[0]})
+				}
+				cc := ci.Common()
+				var recv ssa.Value
+				method := ""
+				if cc.IsInvoke() {
+					recv, method = cc.Value, cc.Method.Name()
+				} else if sc := cc.StaticCallee(); sc != nil && sc.Signature.Recv() != nil && len(cc.Args) > 0 {
+					recv, method = cc.Args[0], sc.Name()
+				}
+				if method != "Close" && method != "Flush" {
+					return
+				}
+				_, isDefer := ins.(*ssa.Defer)
+				fins = append(fins, fin{ins, isDefer, method, recv})
+			})
+		}
+		for _, w := range wraps {
+			var finB, finA []fin
+			for _, f := range fins {
+				if same(f.recv, w.b) {
+					finB = append(finB, f)
+				} else if f.method == "Close" && same(f.recv, w.a) {
+					finA = append(finA, f)
+				}
+			}
+			if len(finA) == 0 {
+				continue // the underlying writer is not closed here (stdout, a caller's writer)
+			}
+			n++
+			key := fmt.Sprintf("%s:%s@%s", fnKey(top), callee(w.at), c.pos(w.at.Pos()))
+			bad := ""
+			for _, fa := range finA {
+				if !fa.deferred {
+					okB := false
+					for _, fb := range finB {
+						if !fb.deferred && fb.ins.Parent() == fa.ins.Parent() && instrDominates(fb.ins, fa.ins) {
+							okB = true
+						}
+					}
+					if !okB && (len(finB) > 0 || strings.HasPrefix(callee(w.at), "bufio.")) {
+						bad = fmt.Sprintf("the underlying writer is closed at %s before the wrapper created at %s was flushed/closed on every path (a deferred flush runs after this close)", c.pos(fa.ins.Pos()), c.pos(w.at.Pos()))
+					}
+					continue
+				}
+				for _, fb := range finB {
+					if fb.deferred && fb.ins.Parent() == fa.ins.Parent() && instrDominates(fb.ins, fa.ins) {
+						bad = fmt.Sprintf("defer of the wrapper's %s at %s is registered before the defer that closes the underlying writer at %s: deferred calls run in reverse order, the file is closed first and the wrapper's final bytes (buffer, end-of-archive marker) are lost", fb.method, c.pos(fb.ins.Pos()), c.pos(fa.ins.Pos()))
+					}
+				}
+			}
+			if bad != "" {
+				c.bad(key, w.at.Pos(), "%s", bad)
+			} else {
+				c.ok(key, w.at.Pos(), "the wrapper is finalised while the underlying writer is still open")
+			}
+		}
+	}
+	if n == 0 {
+		c.info("wrapper-order", token.NoPos, "no wrapping writer whose underlying writer is closed in the same function")
+		c.ok("wrapper-order", token.NoPos, "no wrapper/underlying close pair")
+	}
+}
+
+// pooledMemoryEscapes: memory taken from a sync.Pool and given back by the same function (directly
+// or by defer) belongs to the next taker as soon as the function returns.  Nothing derived from it
+// - a sub-slice, the Bytes() of a pooled buffer, the result of a call that was handed the pooled
+// slice as its destination (EncodeAll(src, dst[:0])) - may be returned to the caller.
+func (c *Ctx) pooledMemoryEscapes() {
+	n := 0
+	for _, fn := range c.libFuncsAll() {
+		var gets []ssa.Value
+		puts := 0
+		instrs(fn, func(_ *ssa.BasicBlock, _ int, ins ssa.Instruction) {
+			if ins.Parent() != fn {
+				return
+			}
+			if ci, ok := ins.(ssa.CallInstruction); ok {
+				switch callee(ci) {
+				case "(*sync.Pool).Get":
+					if v := ci.Value(); v != nil {
+						gets = append(gets, v)
+					}
+				case "(*sync.Pool).Put":
+					puts++
+				}
+			}
+		})
+		if len(gets) == 0 || puts == 0 {
+			continue
+		}
+		n++
+		tainted := map[ssa.Value]bool{}
+		var spread func(v ssa.Value, depth int)
+		spread = func(v ssa.Value, depth int) {
+			if depth > 8 || tainted[v] || v.Referrers() == nil {
+				return
+			}
+			tainted[v] = true
+			for _, r := range *v.Referrers() {
+				switch x := r.(type) {
+				case *ssa.TypeAssert:
+					spread(x, depth+1)
+				case *ssa.Extract:
+					spread(x, depth+1)
+				case *ssa.Slice:
+					spread(x, depth+1)
+				case *ssa.ChangeType:
+					spread(x, depth+1)
+				case *ssa.Convert:
+					spread(x, depth+1)
+				case *ssa.MakeInterface:
+					spread(x, depth+1)
+				case *ssa.Phi:
+					spread(x, depth+1)
+				case *ssa.Call:
+					// a method of the pooled object or a function handed the pooled memory: a result that
+					// can point into it (slice, pointer, interface)
+					name := callee(x)
+					if name == "(*sync.Pool).Put" || name == "builtin:len" || name == "builtin:cap" || name == "builtin:copy" {
+						continue
+					}
+					if isPointerLike(x.Type()) {
+						spread(x, depth+1)
+					} else if tup, ok := x.Type().(*types.Tuple); ok {
+						for i := 0; i < tup.Len(); i++ {
+							if isPointerLike(tup.At(i).Type()) {
+								spread(x, depth+1)
+								break
+							}
+						}
+					}
+				case *ssa.Store:
+					// a local variable holding it
+					if al, ok := x.Addr.(*ssa.Alloc); ok && x.Val == v {
+						for _, r2 := range *al.Referrers() {
+							if ld, ok := r2.(*ssa.UnOp); ok && ld.Op == token.MUL {
+								spread(ld, depth+1)
+							}
+						}
+					}
+				}
+			}
+		}
+		for _, g := range gets {
+			spread(g, 0)
+		}
+		bad := false
+		for _, r := range returnsOf(fn) {
+			for _, res := range r.Results {
+				if tainted[res] || tainted[unspill(r, res)] {
+					bad = true
+					c.bad(fnKey(fn)+":pooled-result", r.Pos(), "the function returns memory that it took from a sync.Pool and puts back before the caller can use it: the next taker of the pool overwrites the caller's data (a stored chunk ends up as a mix of two chunks)")
+					break
+				}
+			}
+			if bad {
+				break
+			}
+		}
+		if !bad {
+			c.ok(fnKey(fn)+":pooled-result", fn.Pos(), "nothing taken from the pool leaves the function")
+		}
+	}
+	if n == 0 {
+		c.ok("pooled-memory", token.NoPos, "no function of the library takes memory from a sync.Pool and gives it back")
+	}
+}
+
+// feederWatchesGroup: a function that runs its workers under errgroup.WithContext and feeds them
+// through an unbuffered channel must stop feeding when a worker fails: the select that sends the
+// next job watches the Done channel of the *group's* context (cancelled by the first failing
+// worker), not the caller's.  Watching the caller's context, the feeder blocks for ever once all
+// workers have returned an error - verify-index / extract / chop hang instead of failing.
+func (c *Ctx) feederWatchesGroup() {
+	n := 0
+	for _, fn := range c.libFuncsAll() {
+		if fn.Parent() != nil || len(fn.Blocks) == 0 {
+			continue
+		}
+		var wc *ssa.Call
+		for _, cs := range calls(fn, named("golang.org/x/sync/errgroup.WithContext")) {
+			if call, ok := cs.(*ssa.Call); ok && call.Parent() == fn {
+				wc = call
+			}
+		}
+		if wc == nil {
+			continue
+		}
+		isGroupCtx := func(v ssa.Value) bool {
+			if onlyOrigins(v, func(o string) bool { return o == "call:golang.org/x/sync/errgroup.WithContext#1" }) {
+				return true
+			}
+			// a variable (the parameter's own cell, re-assigned by "g, ctx := errgroup.WithContext(ctx)",
+			// possibly captured by the feeder closure): at the point of use it holds the group's
+			// context if that assignment comes before the use and no other assignment after it
+			cellHolds := func(cell *ssa.Alloc, use ssa.Instruction) bool {
+				var sg *ssa.Store
+				sts := storesTo(cell)
+				for _, st := range sts {
+					if st.Parent() == cell.Parent() && onlyOrigins(st.Val, func(o string) bool { return o == "call:golang.org/x/sync/errgroup.WithContext#1" }) {
+						sg = st
+					}
+				}
+				if sg == nil || !instrDominates(sg, use) {
+					return false
+				}
+				for _, st := range sts {
+					if st != sg && !(st.Parent() == cell.Parent() && instrDominates(st, sg)) {
+						return false
+					}
+				}
+				return true
+			}
+			if ld, ok := v.(*ssa.UnOp); ok && ld.Op == token.MUL {
+				switch x := ld.X.(type) {
+				case *ssa.Alloc:
+					return cellHolds(x, ld)
+				case *ssa.FreeVar:
+					// where the closure is made
+					okAll, some := true, false
+					var scan func(f *ssa.Function)
+					scan = func(f *ssa.Function) {
+						instrs(f, func(_ *ssa.BasicBlock, _ int, ins ssa.Instruction) {
+							mc, isMC := ins.(*ssa.MakeClosure)
+							if !isMC || mc.Fn != ssa.Value(x.Parent()) {
+								return
+							}
+							for k, fv := range x.Parent().FreeVars {
+								if fv != x || k >= len(mc.Bindings) {
+									continue
+								}
+								some = true
+								cell, isCell := mc.Bindings[k].(*ssa.Alloc)
+								if !isCell || !cellHolds(cell, mc) {
+									okAll = false
+								}
+							}
+						})
+					}
+					if x.Parent().Parent() != nil {
+						scan(x.Parent().Parent())
+					}
+					return okAll && some
+				}
+			}
+			return false
+		}
+		for _, f := range withClosures(fn) {
+			// only the feeder: a select that also sends
+			instrs(f, func(_ *ssa.BasicBlock, _ int, ins ssa.Instruction) {
+				sel, ok := ins.(*ssa.Select)
+				if !ok || ins.Parent() != f {
+					return
+				}
+				sends := false
+				for _, st := range sel.States {
+					if st.Dir == types.SendOnly {
+						sends = true
+					}
+				}
+				if !sends {
+					return
+				}
+				for _, st := range sel.States {
+					if st.Dir != types.RecvOnly {
+						continue
+					}
+					// the received-from channel: X.Done() of some context
+					var doneCall ssa.CallInstruction
+					for _, l := range leaves(st.Chan) {
+						if ci, ok := l.(*ssa.Call); ok && ci.Call.IsInvoke() && ci.Call.Method.Name() == "Done" {
+							doneCall = ci
+						}
+					}
+					if doneCall == nil {
+						continue
+					}
+					n++
+					key := fmt.Sprintf("%s:feeder-select", fnKey(f))
+					c.verdict(isGroupCtx(doneCall.Common().Value), key, sel.Pos(), "the feeding select watches the errgroup's context",
+						"the select that feeds the workers watches a Done channel that is not the errgroup context's (it was taken from the caller's context, or before errgroup.WithContext): when all workers have failed nothing receives any more and nothing cancels that channel - the operation hangs instead of returning the error")
+				}
+			})
+		}
+	}
+	if n == 0 {
+		c.bad("feeder-watches-group", token.NoPos, "no feeding select found in the functions that use errgroup.WithContext")
+	}
+}
